@@ -211,6 +211,8 @@ Qed.
 (* ------------------------------------------------------------------------------------------ *)
 (** * B. the data handed to the writing stage is never empty (site_hs_write_nothing unreachable) *)
 
+Lemma hres_err_inj : forall X (a b : hs_error), @HErr X a = HErr b -> a = b.
+Proof. intros. congruence. Qed.
 Lemma opt_inj : forall A (a b : A), Some a = Some b -> a = b.
 Proof. intros. congruence. Qed.
 Lemma hok_inj : forall A (a b : A), HOk a = HOk b -> a = b.
@@ -2790,3 +2792,214 @@ Lemma segmentation_guard_witness :
                               (toy_world (map (fun b => RdData [b]) head))))) = 65%nat.
 Proof. vm_compute. repeat split; reflexivity. Qed.
 End HsWitness.
+
+(* ------------------------------------------------------------------------------------------ *)
+(** * K. packaged statements for props/C17.v and props/C07hs.v *)
+
+Theorem handshake_bounded_full : forall oreq oresp,
+  (forall cb w,
+     let x := server_handshake oreq oresp cb w in
+     let sizes := rd_sizes (hs_log x) in
+     hs_res x <> HsOutOfFuel /\
+     attack_fold 0 0 (removelast sizes) <> None /\
+     blen sizes <= 513 /\ sumN sizes <= 65536 + last sizes 0) /\
+  (forall scheme_ok path hs w,
+     let x := client_handshake oreq oresp scheme_ok path hs w in
+     let sizes := rd_sizes (hs_log x) in
+     hs_res x <> HsOutOfFuel /\
+     attack_fold 0 0 (removelast sizes) <> None /\
+     blen sizes <= 513 /\ sumN sizes <= 65536 + last sizes 0).
+Proof.
+  intros oreq oresp.
+  destruct (handshake_bounded oreq oresp) as [Hs Hc].
+  destruct (no_panic_handshake oreq oresp) as [Ns Nc].
+  split.
+  - intros cb w. cbv zeta. split; [apply Ns|apply Hs].
+  - intros scheme_ok path hs w. cbv zeta. split; [apply Nc|apply Hc].
+Qed.
+
+Theorem write_stage_exact : forall rest wrs o r' ev,
+  write_stage rest wrs = (o, r', ev) ->
+  writes_ok rest ev /\
+  (exists remaining, rest = hs_wire ev ++ remaining) /\
+  (forall u, o = SDone u -> hs_wire ev = rest) /\
+  (forall e, o = SFail e -> exists k, e = HEIo k /\ k <> WouldBlock) /\
+  (o = SBlocked -> r' = []) /\
+  (exists used, wrs = used ++ r' /\ hs_calls ev = length used).
+Proof.
+  intros rest wrs o r' ev H.
+  pose proof (write_stage_ok wrs rest) as K. rewrite H in K. cbn [snd] in K.
+  split; [exact K|]. split; [apply writes_ok_wire; exact K|].
+  split; [intros u ->; eapply write_stage_done_wire; eauto|].
+  split; [intros e ->; eapply write_stage_fail; eauto|].
+  split; [intros ->; eapply write_stage_blocked; eauto|].
+  eapply write_stage_calls; eauto.
+Qed.
+
+Theorem flush_stage_exact : forall fls o r' ev,
+  flush_stage fls = (o, r', ev) ->
+  (exists k, ev = concat (repeat flush_wb k) ++ flush_final o) /\
+  (forall e, o = SFail e -> exists k, e = HEIo k /\ k <> WouldBlock) /\
+  (o = SBlocked -> r' = []) /\
+  (exists used, fls = used ++ r' /\ hs_calls ev = length used).
+Proof.
+  intros fls o r' ev H.
+  destruct (flush_stage_shape _ _ _ _ H) as [H1 H2].
+  split; [exact H1|]. split; [exact H2|].
+  split; [intros ->; eapply flush_stage_blocked; eauto|].
+  eapply flush_stage_calls; eauto.
+Qed.
+
+Theorem strip_ev_bytes : forall ev,
+  hs_wire (strip_ev ev) = hs_wire ev /\ rd_chunks (strip_ev ev) = rd_chunks ev.
+Proof. intros ev. split; [apply strip_ev_wire|apply strip_ev_chunks]. Qed.
+
+Theorem seq_scan_stable : forall oreq oresp,
+  (seq_scan oreq -> stable (parse_req oreq) /\ forall x, parse_req oreq x <> PFail HEAttack) /\
+  (seq_scan oresp -> stable (parse_resp oresp) /\ forall x, parse_resp oresp x <> PFail HEAttack).
+Proof.
+  intros oreq oresp. split; intros H.
+  - split; [apply seq_scan_stable_req; exact H|apply parse_req_no_attack].
+  - split; [apply seq_scan_stable_resp; exact H|apply parse_resp_no_attack].
+Qed.
+
+Lemma create_parts_err_proto : forall m v hs e,
+  create_parts m v hs = HErr e -> exists p, e = HEProto p.
+Proof.
+  unfold create_parts. intros m v hs e H.
+  repeat match type of H with
+  | (if ?c then _ else _) = _ => destruct c; [eexists; apply hres_err_inj in H; symmetry; exact H|]
+  end.
+  destruct (hget _ hs); [discriminate|]. eexists. apply hres_err_inj in H. symmetry. exact H.
+Qed.
+
+Lemma server_done_reading_err_kind : forall cb req tail e,
+  server_done_reading cb req tail = HErr e -> (exists p, e = HEProto p) \/ e = HEUtf8.
+Proof.
+  unfold server_done_reading. intros cb req tail e H.
+  destruct tail; [|left; eexists; apply hres_err_inj in H; symmetry; exact H].
+  destruct (create_parts true true (req_headers req)) as [hs|e0] eqn:EC.
+  - destruct cb as [|extra|status hs' body].
+    + destruct (write_response 101 hs); [discriminate|right; congruence].
+    + destruct (write_response 101 (hs ++ extra)); [discriminate|right; congruence].
+    + destruct ((200 <=? status) && (status <? 300));
+        [left; eexists; apply hres_err_inj in H; symmetry; exact H|].
+      destruct (write_response status hs'); [discriminate|right; congruence].
+  - apply create_parts_err_proto in EC. left. destruct EC as [p0 ->]. exists p0. congruence.
+Qed.
+
+(* the guard tripped iff the result is the Attack error *)
+Theorem attack_result_iff : forall oreq oresp cb w,
+  let x := server_handshake oreq oresp cb w in
+  hs_res x = HsFail HEAttack <-> attack_fold 0 0 (rd_sizes (hs_log x)) = None.
+Proof.
+  intros oreq oresp cb w. cbv zeta. rewrite server_handshake_spec.
+  unfold rd_sizes. rewrite server_spec_reads. unfold server_spec.
+  assert (G : forall rds buf p b,
+    let y := read_stage (parse_req oreq) buf p b rds in
+    (fst (fst y) = SFail HEAttack <-> attack_fold p b (map (@blen N) (rd_chunks (snd y))) = None)).
+  { induction rds as [|a r IH]; intros buf p b; cbn [read_stage].
+    - cbn. split; discriminate.
+    - destruct a as [bs| |k].
+      + destruct bs as [|x bs]; [cbn; split; discriminate|].
+        destruct (attack_check p b (blen (x :: bs))) as [[p' b']|] eqn:EA.
+        * pose proof (parse_req_no_attack oreq (buf ++ x :: bs)) as Hna.
+          destruct (parse_req oreq (buf ++ x :: bs)) as [|n a|e] eqn:EP.
+          -- specialize (IH (buf ++ x :: bs) p' b').
+             destruct (read_stage (parse_req oreq) (buf ++ x :: bs) p' b' r) as [[o r'] ev].
+             cbn [fst snd rd_chunks map attack_fold] in *. rewrite EA. exact IH.
+          -- cbn [fst snd rd_chunks map attack_fold]. rewrite EA. cbn. split; discriminate.
+          -- cbn [fst snd rd_chunks map attack_fold]. rewrite EA. cbn. split; [|discriminate].
+             intros Hc. exfalso. apply Hna. congruence.
+        * cbn [fst snd rd_chunks map attack_fold]. rewrite EA. split; reflexivity.
+      + cbn. split; discriminate.
+      + destruct k; try (cbn; split; discriminate).
+        specialize (IH buf p b).
+        destruct (read_stage (parse_req oreq) buf p b r) as [[o r'] ev].
+        cbn [fst snd rd_chunks] in *. exact IH. }
+  specialize (G (w_rds w) [] 0 0). cbv zeta in G.
+  destruct (read_stage (parse_req oreq) [] 0 0 (w_rds w)) as [[o1 r1] ev1]. cbn [fst snd] in *.
+  rewrite <- G. clear G.
+  destruct o1 as [[[n req] buf']|e|].
+  - split; [|discriminate]. intros Hc. exfalso.
+    destruct (server_done_reading cb req (dropN n buf')) as [[out pend]|e] eqn:ED.
+    + pose proof (server_write_flush_inv pend out (w_set_rds w r1) ev1) as Hi.
+      destruct (server_write_flush pend out (w_set_rds w r1) ev1) as [[res w'] log].
+      destruct (Hi _ _ _ eq_refl) as (evw & evf & rem & _ & _ & _ & _ & _ & _ & _ & _ & Hfin).
+      cbn [hs_res fst] in Hc. subst res.
+      destruct Hfin as [(_ & _ & F)|[F|[k F]]]; try discriminate.
+      destruct pend as [[s b0]|]; discriminate.
+    + cbn [hs_res fst] in Hc. apply server_done_reading_err_kind in ED.
+      assert (e = HEAttack) by congruence. subst e.
+      destruct ED as [[p0 ED]|ED]; discriminate.
+  - cbn [hs_res fst]. split; congruence.
+  - cbn [hs_res fst]. split; discriminate.
+Qed.
+
+Module HsWitness2.
+Import HsWitness.
+
+(* without "nothing was sent after the head", the server's outcome DOES depend on segmentation:
+   a byte behind the head is rejected (JunkAfterRequest) only if it arrives in the same read *)
+Lemma segmentation_junk_refuted :
+  exists (oreq : bytes -> oracle_out raw_req) (oresp : bytes -> oracle_out raw_resp)
+         cb w csA csB t,
+    seq_scan oreq /\ nonempty_chunks csA /\ nonempty_chunks csB /\ concat csA = concat csB /\
+    let xA := server_handshake oreq oresp cb (w_set_rds w (map RdData csA ++ t)) in
+    let xB := server_handshake oreq oresp cb (w_set_rds w (map RdData csB ++ t)) in
+    hs_res xA <> HsFail HEAttack /\ hs_res xB <> HsFail HEAttack /\
+    hs_res xA = HsDone Server [] /\ hs_res xB = HsFail (HEProto JunkAfterRequest).
+Proof.
+  exists toy_req, no_resp, CbNone, (toy_world []), [[71; 10]; [0]], [[71; 10; 0]], [].
+  split; [apply toy_oracle_seq_scan|].
+  split; [repeat constructor; discriminate|].
+  split; [repeat constructor; discriminate|].
+  split; [reflexivity|].
+  vm_compute. repeat split; discriminate.
+Qed.
+
+(* the guard hypothesis is needed: same head, nothing behind it, but 66 one-byte reads trip the
+   small-packet guard at read 65 while a single read is accepted *)
+Lemma segmentation_guard_refuted :
+  exists (oreq : bytes -> oracle_out raw_req) (oresp : bytes -> oracle_out raw_resp)
+         cb w csA csB t,
+    seq_scan oreq /\ nonempty_chunks csA /\ nonempty_chunks csB /\ concat csA = concat csB /\
+    (forall n x, oreq (concat csA) = OComplete n x -> n = blen (concat csA)) /\
+    let xA := server_handshake oreq oresp cb (w_set_rds w (map RdData csA ++ t)) in
+    let xB := server_handshake oreq oresp cb (w_set_rds w (map RdData csB ++ t)) in
+    hs_res xA = HsFail HEAttack /\ hs_res xB = HsDone Server [].
+Proof.
+  exists toy_req, no_resp, CbNone, (toy_world []),
+    (map (fun b => [b]) (repeat 97 65 ++ [10])), [repeat 97 65 ++ [10]], [].
+  split; [apply toy_oracle_seq_scan|].
+  split; [vm_compute; repeat constructor; discriminate|].
+  split; [repeat constructor; vm_compute; discriminate|].
+  split; [vm_compute; reflexivity|].
+  split.
+  - intros n x H. vm_compute in H. apply (f_equal (fun o => match o with OComplete k _ => k | _ => 0 end)) in H.
+    rewrite <- H. vm_compute. reflexivity.
+  - vm_compute. split; reflexivity.
+Qed.
+
+(* the hypotheses of server_segmentation are satisfiable, with a successful handshake *)
+Lemma segmentation_example :
+  exists (oreq : bytes -> oracle_out raw_req) (oresp : bytes -> oracle_out raw_resp)
+         cb w csA csB t,
+    seq_scan oreq /\ nonempty_chunks csA /\ nonempty_chunks csB /\ concat csA = concat csB /\
+    csA <> csB /\
+    (forall n x, oreq (concat csA) = OComplete n x -> n = blen (concat csA)) /\
+    let xA := server_handshake oreq oresp cb (w_set_rds w (map RdData csA ++ t)) in
+    let xB := server_handshake oreq oresp cb (w_set_rds w (map RdData csB ++ t)) in
+    hs_res xA <> HsFail HEAttack /\ hs_res xB <> HsFail HEAttack /\ hs_res xA = HsDone Server [].
+Proof.
+  exists toy_req, no_resp, CbNone, (toy_world []), [[71]; [10]], [[71; 10]], [RdEof].
+  split; [apply toy_oracle_seq_scan|].
+  split; [repeat constructor; discriminate|].
+  split; [repeat constructor; discriminate|].
+  split; [reflexivity|]. split; [discriminate|].
+  split.
+  - intros n x H. vm_compute in H. apply (f_equal (fun o => match o with OComplete k _ => k | _ => 0 end)) in H.
+    rewrite <- H. vm_compute. reflexivity.
+  - vm_compute. repeat split; discriminate.
+Qed.
+End HsWitness2.
